@@ -1,0 +1,6 @@
+//go:build !verif
+
+package server
+
+// verifReportDelay - no-op outside verification builds (see verif_hooks.go)
+func verifReportDelay() {}
